@@ -121,8 +121,9 @@ Record log := mkLog {
 Definition max_time (l : list entry) (def : Z) : Z := fold_left (fun m e => Z.max (e_time e) m) l def.
 
 (* NewLog with no entries *)
-Definition new_log (id key : N) (s : sortfn) (deny : list N) : log :=
-  mkLog id [] [] [] 0 key key s deny.
+(* t0: the time of the clock handed to NewLog (LogOptions.Clock), 0 when none is given *)
+Definition new_log (id key : N) (s : sortfn) (deny : list N) (t0 : Z) : log :=
+  mkLog id [] [] [] t0 key key s deny.
 
 (* NewLog from loaded entries (heads given explicitly or found) *)
 Definition build_next_index (entries : omap) : omap :=
